@@ -1276,8 +1276,19 @@ pub fn c02_scan(ck: &mut Checker, sim: &mut Sim, when: &str) {
             160 => {
                 if key.len() == 33 {
                     let h = Byte32::from_slice(&key[1..]).unwrap();
-                    if !sim.world.by_hash.contains_key(&h) {
-                        findings.push(("stored_header_not_a_real_block", format!("header {:#x}", h)));
+                    match sim.world.by_hash.get(&h) {
+                        None => findings.push(("stored_header_not_a_real_block", format!("header {:#x}", h))),
+                        Some(id) => {
+                            // these scenarios have no reorg: every header a proven last state
+                            // commits to lies on the main branch
+                            let n = sim.world.blocks[*id].number();
+                            if sim.world.branches[0].ids.get(n as usize) != Some(id) {
+                                findings.push((
+                                    "stored_header_of_a_block_no_proven_header_commits_to",
+                                    format!("header {:#x} (#{}) belongs to a side branch nobody proved", h, n),
+                                ));
+                            }
+                        }
                     }
                 }
             }
